@@ -8,6 +8,7 @@ import (
 	"fmt"
 	"io"
 	"math/big"
+	"time"
 
 	"github.com/markkurossi/mpc/circuit"
 	"github.com/markkurossi/mpc/env"
@@ -90,6 +91,15 @@ type Session struct {
 	// same p2p.Conn (what a shared COT needs), else over a fresh pipe and Conn.
 	Next     *Session
 	SameConn bool
+	// Par, if set, is a session (Circ, X, Y) that the same two processes serve at
+	// the same time as this one, as a server handling two clients does: its own
+	// connection and OT objects, but the same env.Config and - if Par.Circ is the
+	// same pointer - the same circuit value. The garbler's randomness source is
+	// then a scheduling point (a read from the OS takes time). ParDelay: how long
+	// after the first session the second one starts.
+	Par            *Session
+	ParDelay       time.Duration
+	RandStallOneIn int // with Par: one read in so many of the shared randomness source stalls
 }
 
 // Out is what a session produced.
@@ -103,6 +113,7 @@ type Out struct {
 	EA, EB       *simnet.Endpoint
 	Aborted      bool // the session stalled and was aborted
 	Next         *Out // the second session, if any (GE/EG: its own bytes only)
+	Par          *Out // the session served at the same time, if any
 }
 
 // Run executes one session under the simulator.
@@ -142,13 +153,30 @@ func Run(t *rt.Tape, s Session) *Out {
 			second.Abort()
 		}
 	}
+	var ea3, eb3 *simnet.Endpoint
+	var spyP *otSpy
+	var otEP ot.OT
+	if s.Par != nil {
+		o.Par = &Out{}
+		ea3, eb3 = simnet.Pipe("Gp", "Ep", s.Pipe)
+		o.Par.EA, o.Par.EB = ea3, eb3
+		spyP = &otSpy{OT: NewOT(s.OT, simrand.Stream("G-ot-par"))}
+		otEP = NewOT(s.OT, simrand.Stream("E-ot-par"))
+		cfg.Rand = &simrand.Yielding{R: cfg.Rand, StallOneIn: s.RandStallOneIn}
+	}
 	var ge1, eg1 int // bytes of the first session on a shared connection
 	o.RR = rt.Run(rt.Config{Trace: s.Trace, NoProgress: core.NoProgressDefault, OnStall: onStall, OnCrash: func(party string, _ *rt.Task) {
 		// a crashed process loses its sockets
 		if party == "G" {
 			abort(ea, ea2)
+			if ea3 != nil {
+				ea3.Abort()
+			}
 		} else if party == "E" {
 			abort(eb, eb2)
+			if eb3 != nil {
+				eb3.Abort()
+			}
 		}
 	}}, t, func() {
 		rt.GoParty("G", "garbler", func() {
@@ -181,6 +209,32 @@ func Run(t *rt.Tape, s Session) *Out {
 				conn.Close()
 			}
 		})
+		if s.Par != nil {
+			n := o.Par
+			rt.GoParty("G", "garbler-par", func() {
+				rt.Sleep(s.ParDelay)
+				conn := p2p.NewConn(ea3)
+				n.GOut, n.GErr = circuit.Garbler(cfg, conn, spyP, s.Par.Circ, s.Par.X, false)
+				n.GDone = true
+				n.OTWires = spyP.Wires
+				if n.GErr != nil {
+					ea3.Abort()
+				} else {
+					conn.Close()
+				}
+			})
+			rt.GoParty("E", "evaluator-par", func() {
+				rt.Sleep(s.ParDelay)
+				conn := p2p.NewConn(eb3)
+				n.EOut, n.EErr = circuit.Evaluator(conn, otEP, s.Par.Circ, s.Par.Y, false)
+				n.EDone = true
+				if n.EErr != nil {
+					eb3.Abort()
+				} else {
+					conn.Close()
+				}
+			})
+		}
 		rt.GoParty("E", "evaluator", func() {
 			conn := p2p.NewConn(eb)
 			o.EOut, o.EErr = circuit.Evaluator(conn, otE, s.Circ, s.Y, false)
@@ -211,6 +265,12 @@ func Run(t *rt.Tape, s Session) *Out {
 		})
 	})
 	o.GE, o.EG = ea.Sent(), eb.Sent()
+	if o.Par != nil {
+		o.Par.GE, o.Par.EG = ea3.Sent(), eb3.Sent()
+		if !o.Par.GDone {
+			o.Par.OTWires = spyP.Wires
+		}
+	}
 	if s.Next == nil {
 		if !o.GDone {
 			o.OTWires = spy.Wires // what the garbler had handed over when the session ended
@@ -327,6 +387,24 @@ func (w *C02) Run(t *rt.Tape, trace bool) *core.Result {
 		second = fmt.Sprintf("second session (same connection: %v): %s x=%s y=%s", sess.SameConn, gen.Describe(circ2), in2[0].Text(16), in2[1].Text(16))
 		res.Reach["two-sessions.same-connection="+fmt.Sprint(sess.SameConn)]++
 	}
+	// One case in five (same restriction): the two processes serve another session at the
+	// same time - a server with two clients: own connections and OT objects, the same
+	// env.Config and, two times in three, the same circuit value.
+	var circ3 *circuit.Circuit
+	var in3, want3 []*big.Int
+	if !small && sess.Next == nil && res.Reach["circuit.compiled-from-mpcl"] == 0 && kind != OTRSA1024 && kind != OTRSA2048 && t.Choose(rt.SGen, 5) == 0 {
+		circ3 = circ
+		if t.Choose(rt.SGen, 3) == 0 {
+			circ3 = gen.Circuit(t, gen.CircuitOpts{ZeroWidth: true})
+		}
+		in3 = gen.Inputs(t, circ3)
+		want3 = gen.Eval(circ3, in3)
+		sess.Par = &Session{Circ: circ3, X: in3[0], Y: in3[1]}
+		sess.ParDelay = []time.Duration{0, 0, time.Millisecond, 20 * time.Millisecond}[t.Choose(rt.SGen, 4)]
+		sess.RandStallOneIn = []int{0, 4, 16, 64}[t.Choose(rt.SGen, 4)]
+		second = fmt.Sprintf("session served at the same time (same circuit value: %v, starts %v later): %s x=%s y=%s", circ3 == circ, sess.ParDelay, gen.Describe(circ3), in3[0].Text(16), in3[1].Text(16))
+		res.Reach["concurrent-sessions.same-circuit-value="+fmt.Sprint(circ3 == circ)]++
+	}
 	res.Sample = Sample{Circuit: gen.Describe(circ), X: in[0].Text(16), Y: in[1].Text(16), OT: OTNames[kind], GE: core.DescribeDir(pipe.AB), EG: core.DescribeDir(pipe.BA), Second: second}
 	res.Class = "ot=" + OTNames[kind]
 	want := gen.Eval(circ, in)
@@ -378,6 +456,23 @@ func (w *C02) Run(t *rt.Tape, trace bool) *core.Result {
 	got, err := circ.Compute(gen.FlattenInputs(circ, in))
 	if err != nil || !gen.EqualOutputs(got, want) {
 		return fail("compute-disagrees", fmt.Sprintf("Circuit.Compute %s err=%v, truth table %s", gen.FmtInts(got), err, gen.FmtInts(want)))
+	}
+	if n := o.Par; n != nil {
+		const who = "session served at the same time by the same processes: "
+		switch {
+		case n.GDone && n.GErr != nil:
+			return fail("garbler-error", who+n.GErr.Error())
+		case n.EDone && n.EErr != nil:
+			return fail("evaluator-error", who+n.EErr.Error())
+		case !n.GDone || !n.EDone:
+			return fail("did-not-terminate", fmt.Sprintf(who+"%v: garbler done=%v evaluator done=%v; unfinished tasks: %v", o.RR.Outcome, n.GDone, n.EDone, o.RR.Blocked))
+		case len(n.GOut) != len(circ3.Outputs) || len(n.EOut) != len(circ3.Outputs):
+			return fail("output-count", fmt.Sprintf(who+"garbler returned %d values, evaluator %d, circuit declares %d outputs", len(n.GOut), len(n.EOut), len(circ3.Outputs)))
+		case !gen.EqualOutputs(n.GOut, n.EOut):
+			return fail("parties-disagree", fmt.Sprintf(who+"garbler %s evaluator %s", gen.FmtInts(n.GOut), gen.FmtInts(n.EOut)))
+		case !gen.EqualOutputs(n.GOut, want3):
+			return fail("wrong-result", fmt.Sprintf(who+"protocol %s, truth table %s", gen.FmtInts(n.GOut), gen.FmtInts(want3)))
+		}
 	}
 	if n := o.Next; n != nil {
 		switch {
